@@ -407,6 +407,9 @@ def main(tier_, replay=None):
     for f in t_fails[:5]:
         n_fail += 1
         rep.violation(dict({"property": "C10", "kind": "law (Date/Time/DateTime)"}, **f))
+    from . import nestedvars
+    nv_problems, _nv_n = nestedvars.run(rep, "C10")
+    n_fail += nv_problems
     if n_fail == 0 and t_mm and proofs_ok and not mm:
         c = t_cases[t_mm[0]]
         n_fail += 1
